@@ -121,6 +121,22 @@ def _base_skeletons():
     )
     out.append(
         Skel(
+            # the same discrete restriction as in "retirement-filter", written as a constraint (C10)
+            "retirement-constraint",
+            3,
+            [("lagged_retirement", D2), ("wealth", "lin")],
+            [("retirement", D2), ("consumption", "lin")],
+            [
+                ("utility", ["consumption", "retirement", "wealth", "lagged_retirement", "delta"], "utility"),
+                ("next_lagged_retirement", ["retirement"], "next"),
+                ("next_wealth", ["wealth", "consumption", "retirement", "interest_rate"], "next"),
+                ("consumption_constraint", ["consumption", "wealth"], "constraint"),
+                ("absorbing_retirement_constraint", ["retirement", "lagged_retirement"], "constraint"),
+            ],
+        )
+    )
+    out.append(
+        Skel(
             "stochastic-health",
             3,
             [("health", D2), ("partner", D2), ("wealth", "lin")],
